@@ -755,6 +755,9 @@ func (m *M) checkVisit(o *Op, r *Res) error {
 	if o.K != CItems && o.N > 0 && o.N < want {
 		want = o.N
 	}
+	if o.K == CRange && o.N < 0 {
+		want = 0 // nil visitor: nothing may happen
+	}
 	if len(r.Vis) != want {
 		return errf("%d pairs visited, expected %d (live entries %d, stop after %d)", len(r.Vis), want, len(live), o.N)
 	}
